@@ -122,12 +122,22 @@ var rulePrios = []int{0, 1, 2, 5, 9}
 var childPriosNarrow = []int{0, 1, 2, 5, 9}
 var childPriosWide = []int{0, 1, 2, 3, 5, 6, 7, 9, 11}
 
+// Priority assignments outside the everyday range ("all priority assignments
+// to rules and to child monitors"): rule priorities whose differences do not
+// fit into an int, negative monitor priorities (the queue counts them as 0,
+// the bookkeeping behind HighestPriority keeps the number).
+const maxInt = int(^uint(0) >> 1)
+
+var rulePriosExtreme = []int{-maxInt - 1 + 3, -(maxInt/2 + 10), -3, 0, 7, maxInt/2 + 10, maxInt - 1}
+var childPriosNegative = []int{-7, -2, -1, 0, 1, 5}
+
 type genParams struct {
 	maxNodes    int
 	maxDepth    int
 	maxRules    int
 	maxChildren int
 	childPrios  []int
+	rulePrios   []int // nil: rulePrios
 	skipNum     int // x/16: a child is a non-triggering event
 	failNum     int // x/16: a rule fails
 }
@@ -149,6 +159,10 @@ func (sc *scenario) genTree(r *core.Rand, n *node, depth int, gp genParams) {
 		nr = gp.maxRules
 	}
 	equalPrio := r.Chance(1, 6)
+	rulePrios := rulePrios
+	if gp.rulePrios != nil {
+		rulePrios = gp.rulePrios
+	}
 	ep := rulePrios[r.Intn(len(rulePrios))]
 	for i := 0; i < nr; i++ {
 		p := rulePrios[r.Intn(len(rulePrios))]
@@ -191,6 +205,12 @@ func genRandom(r *core.Rand, quick bool) *scenario {
 	if r.Bool() {
 		gp.childPrios = childPriosWide
 	}
+	switch r.Intn(6) {
+	case 0:
+		gp.rulePrios = rulePriosExtreme
+	case 1:
+		gp.childPrios = childPriosNegative
+	}
 	if sc.workers > 1 {
 		sc.noise = []int{0, 60, 200, 400}[r.Intn(4)]
 		sc.parHosts = nc > 1 && r.Bool()
@@ -225,8 +245,12 @@ func genHeap(r *core.Rand) *scenario {
 	top := sc.addRule(root, 0, false)
 	perm := r.Perm(12)
 	k := r.Range(5, 9)
+	shift := 0
+	if r.Chance(1, 4) {
+		shift = -r.Range(2, 6) // some of the priorities alive are negative numbers
+	}
 	for i := 0; i < k; i++ {
-		p := perm[i]
+		p := perm[i] + shift
 		trig := !r.Chance(1, 6)
 		ch := sc.addChild(top, p, trig)
 		if i > 0 && r.Chance(1, 8) {
@@ -240,7 +264,7 @@ func genHeap(r *core.Rand) *scenario {
 			ng := r.Range(1, 3)
 			for j := 0; j < ng; j++ {
 				gt := !r.Chance(1, 6)
-				g := sc.addChild(ru, r.Intn(13), gt)
+				g := sc.addChild(ru, r.Intn(13)+shift, gt)
 				if gt {
 					sc.addRule(g, 0, false)
 				}
